@@ -215,6 +215,13 @@ class ExprMixin:
                     return to_z3(a, "real") == to_z3(b, "real")
                 return False  # e.g. str == int in Python is False
             return za == zb
+        if getattr(self.sidecar, "ENUM_ORDINAL_EQ", False) and (isinstance(a, VEnumSym) or isinstance(b, VEnumSym)):
+            # opt-in of the sidecar (a modelling declaration listed by the property): every Int-sorted value that the code under
+            # contract compares with an Enum member is an enum-shaped value (field declared `enum[Cls]` = the member's ordinal
+            # in definition order), so `field == member` compares the two ordinals.  Without the opt-in nothing changes.
+            sym, other = (a, b) if isinstance(a, VEnumSym) else (b, a)
+            if is_leaf(other) and other.sort() == z3.IntSort():
+                return to_z3(self.coerce(sym, ("enum", sym.cls.__name__))) == other
         if type(a) is not type(b):
             return False
         raise Unsupported(f"equality of {type(a).__name__}")
@@ -276,6 +283,17 @@ class ExprMixin:
             if codes is not None:
                 return VChar(codes)
             raise Unsupported("a symbolic string stored where a single character is declared")
+        if k == "urec":
+            # rec[A,B,..] (values.urec_as_tuple): a record of class C is injected as (position of C, default records .., the
+            # record itself at C's place, .. default records); a record of a class that is not listed is refused
+            if isinstance(v, VRec):
+                if v.cls not in shape[1]:
+                    raise Unsupported(f"a record of class {v.cls} stored where rec[{','.join(shape[1])}] is declared")
+                return VTuple([shape[1].index(v.cls)] + [v if c_ == v.cls else self.default_of(("rec", c_)) for c_ in shape[1]])
+            if isinstance(v, VTuple) and not isinstance(v, VHList) and len(v.items) == len(shape[1]) + 1 \
+                    and all(isinstance(x_, VRec) and x_.cls == c_ for x_, c_ in zip(v.items[1:], shape[1])):
+                return v  # already in the injected form
+            raise Unsupported(f"a value of kind {type(v).__name__} stored where rec[{','.join(shape[1])}] is declared")
         if k == "tuple" and isinstance(v, VTuple):
             return VTuple([self.coerce(x, s) for x, s in zip(v.items, shape[1])])
         if k == "hlist" and isinstance(v, VHList) and len(v.items) == len(shape[1]):
@@ -322,6 +340,9 @@ class ExprMixin:
 
     def default_of(self, shape):
         k = shape[0]
+        if k == "urec":
+            from .values import urec_as_tuple
+            return self.default_of(urec_as_tuple(shape))
         if k == "rec" and shape[1] in self.classes:
             return VRec(shape[1], {f: self.default_of(self.shape(s_)) for f, s_ in self.classes[shape[1]]["fields"].items()})
         if k == "int" or k == "enum":
@@ -537,6 +558,11 @@ class ExprMixin:
             a = VOpt(True, b.val) if a is None else VOpt(False, a)
         elif isinstance(a, VOpt) and not isinstance(b, VOpt):
             b = VOpt(True, a.val) if b is None else VOpt(False, b)
+        # `s if c else set()`: the literal empty set takes the element shape of the other side
+        if type(a).__name__ == "VEmptySet" and isinstance(b, VSet):
+            a = self.default_of(("set", b.kshape))
+        elif type(b).__name__ == "VEmptySet" and isinstance(a, VSet):
+            b = self.default_of(("set", a.kshape))
         if isinstance(a, (VConc, VChoice)) and isinstance(b, (VConc, VChoice)):
             # two opaque concrete objects of the real module (e.g. the inner dicts of a constant table of tables looked up
             # with a symbolic key): kept as a guarded choice; a method call on it is made on each alternative (call_method)
@@ -759,6 +785,8 @@ class ExprMixin:
                 right = self.ev(rn, st)
                 if isinstance(op, (ast.In, ast.NotIn)) and isinstance(right, VRef) and self.classes.get(right.cls, {}).get("boxed_list"):
                     right = self.heap_read(st, right, self.classes[right.cls]["boxed_list"])  # `x in <list object>`: its content
+                if isinstance(op, (ast.In, ast.NotIn)) and isinstance(right, VRef) and self.classes.get(right.cls, {}).get("boxed_set"):
+                    right = self.heap_read(st, right, self.classes[right.cls]["boxed_set"])  # `x in <set object>`: its current content
                 if isinstance(op, ast.Lt) and isinstance(left, VRef) and isinstance(right, VRef) and not self.spec \
                         and self.resolve(f"{left.cls}.__lt__"):
                     c = self.truth(self.call_method(left, "__lt__", [right], {}, node, st))  # a < b is a.__lt__(b)
